@@ -126,6 +126,17 @@ def s_values(n, rng):
         v.add(half + (1 << j) + 1)
     for _ in range(6):
         v.add(rng.randrange(1, n))
+    # values whose low twin n - s (or s itself) sits at a power of two or a machine-word boundary: 2^k - 1, 2^k, 2^k + 1 for every k, and
+    # random values of exactly 8, 16, 32, 63, 64, 65, 128 bits - an encoder with a special path for "small" integers meets them here
+    for j in range(1, n.bit_length()):
+        for t in ((1 << j) - 1, 1 << j, (1 << j) + 1):
+            v.add(t)
+            v.add(n - t)
+    for bits in (8, 16, 32, 63, 64, 65, 128):
+        if bits < n.bit_length() - 1:
+            t = rng.getrandbits(bits) | (1 << (bits - 1))
+            v.add(t)
+            v.add(n - t)
     return sorted(x for x in v if 1 <= x <= n - 1)
 
 
@@ -180,7 +191,19 @@ def run(ctx, name, kind, **kw):
             if not isinstance(rs, tuple):
                 continue
             r, s0 = rs
-            for s in (max(s0, n - s0), min(s0, n - s0)):     # force high, then low
+            cases_ = [(r, max(s0, n - s0), digest), (r, min(s0, n - s0), digest)]     # force high, then low
+            # chosen s: the digest is SOLVED for so that (r, s) is valid with a structured s whose low twin sits at a power of two or has
+            # exactly 8 / 16 / 32 / 63 / 64 / 65 / 128 bits (e = s k - r d; the digest carries e in its leftmost bits)
+            Lb = (n.bit_length() + 7) // 8
+            ts_ = [rng.getrandbits(b_) | (1 << (b_ - 1)) for b_ in (8, 16, 32, 63, 64, 65, 128) if b_ < n.bit_length() - 1] + [1 << 63, (1 << 64) - 1, 1 << 64, 1, 127, 128, 255, 256]
+            for t_ in ts_[i % 3::3]:
+                for s_c in (n - t_, t_):
+                    e_c = (s_c * k - r * d) % n
+                    dg_c = (e_c << (8 * Lb - n.bit_length())).to_bytes(Lb, "big")
+                    if ecdsa_ref.digest_to_e(dom, dg_c, True) % n == e_c:
+                        cases_.append((r, s_c, dg_c))
+                        ctx.count("chosen_s_instances")
+            for (r, s, digest) in cases_:
                 side = "high" if 2 * s > n else "low"
                 for ename, canon, plain, dec in ENCODERS:
                     for wrong in (False, True):
